@@ -267,6 +267,26 @@ def run(ctx):
         res.add(Finding('C12', 'C12.a', 'R-LOCKSET', flush.file, flush.qualname, flush.node.lineno, 'buffer swap',
                         'the flusher does not take the old list and install the new one within a single lock region: an operation appended in '
                         'between is lost or applied twice'))
+    # who takes operations out of the buffer: the flusher's swap, nobody else. Producers append; a method that empties / replaces / shortens
+    # the shared list drops requested operations of every recording that is pending (the buffer is one queue for all of them)
+    takers = []
+    for c_ in (cas, rec):
+        for m_ in c_.methods.values():
+            if m_ in flusher_side or m_.name == '__init__':
+                continue
+            for n in ast.walk(m_.node):
+                hit = (isinstance(n, (ast.Assign, ast.AugAssign, ast.Delete)) and
+                       any(self_attr(t_) in shared or (isinstance(t_, ast.Subscript) and self_attr(t_.value) in shared)
+                           for t_ in (n.targets if not isinstance(n, ast.AugAssign) else [n.target]))) or \
+                      (isinstance(n, ast.Call) and isinstance(n.func, ast.Attribute) and self_attr(n.func.value) in shared and
+                       n.func.attr in ('clear', 'pop', 'remove', 'popleft', '__delitem__', 'sort', 'reverse'))
+                if hit:
+                    takers.append((m_, n))
+    ca.instance('operations leave the buffer only through the flusher\'s swap', cas.name, not takers)
+    for m_, n in takers[:1]:
+        res.add(Finding('C12', 'C12.a', 'R-LOCKSET', m_.file, m_.qualname, n.lineno, norm(n)[:80],
+                        '%s removes / replaces pending operations itself (`%s`): the buffer is one queue for every recording in flight, so writes and '
+                        'saves that were requested for other recordings are dropped without being applied' % (m_.qualname, norm(n)[:60])))
     # ---------------- C12.b
     cb.instance('calls made while the lock is held: none into wrapped storage / buffered operations', cas.name, not locked_calls)
     cb.evaluations += sum(len(d.events) for d in doms.values())
@@ -457,6 +477,23 @@ def run(ctx):
                         'the flusher sleeps in `%s`, which close() does not interrupt (close sets %s): with a flush interval longer than the close '
                         'timeout, close() returns while operations are still buffered and the wrapped cassette is closed under them' % (
                             norm(n), sorted(x for x in set_by_close if x))))
+    # the join is unconditional: an empty buffer does not mean an idle flusher (it swaps the buffer out before it applies the batch)
+    from .common import guards_of as _guards_of
+    jg = [(s_, [c_ for c_ in conds if not (isinstance(c_[0], ast.Name) and c_[0].id.startswith('<handler'))]) for s_, conds in
+          _guards_of(close.node, lambda x: isinstance(x, ast.Call) and isinstance(x.func, ast.Attribute) and x.func.attr == 'join' and
+                     ftypes.get(self_attr(x.func.value), ('', ''))[1] == 'threading.Thread')]
+    def _about_thread(t_):
+        # tests on the thread itself (is_alive() / started) do not skip a join that could have waited for anything
+        fs_ = {self_attr(x) for x in ast.walk(t_) if isinstance(x, ast.Attribute) and self_attr(x)}
+        return bool(fs_) and all(ftypes.get(f_, ('', ''))[1] == 'threading.Thread' for f_ in fs_) and not any(isinstance(x, ast.Name) and x.id != 'self' for x in ast.walk(t_))
+    jg = [(s_, [c_ for c_ in conds if not _about_thread(c_[0])]) for s_, conds in jg]
+    guarded_join = [(s_, conds) for s_, conds in jg if conds]
+    cf.instance('close() joins the flusher unconditionally', close.qualname, bool(jg) and not guarded_join)
+    for s_, conds in guarded_join[:1]:
+        res.add(Finding('C12', 'C12.f', 'R-ORDER', close.file, close.qualname, s_.lineno, 'join only when `%s`' % norm(conds[0][0])[:80],
+                        'close() joins the flusher thread only when `%s`: the flusher takes the batch out of the buffer before it applies it, so with an '
+                        'empty buffer it can still be inside a storage write - close() then closes the wrapped cassette under it and returns before the '
+                        'recording is stored' % norm(conds[0][0])[:80]))
     cf.instance('close(): stop signal (line %s) -> join (%s) -> wrapped close (%s)' % (ln.get('signal'), ln.get('join'), ln.get('wrapped-close')), close.qualname, okf)
     cf.evaluations += 1
     if not okf:
